@@ -315,7 +315,7 @@ def plan(tier, seed):
                       'pair / default lines with all look-ups made in every intermediate state; every file also '
                       'without final newline, with CRLF line ends and with trailing blank lines; every ordered pair (thorough: triple) of a pool of files '
                       'read one after the other in one process, all objects verified afterwards; scalar/list/dict lines: all ordered '
-                      'selections of %d of 12 lines; the shipped file with every created group type. non-trivial = distinct files '
+                      'selections of %d of 12 lines; the shipped file with every created group type. matrices over four of the program\'s own type names with any 1-3 of them declared, and the shipped matrix cut off after each of its rows (look-ups over all names, declared or not); non-trivial = distinct files '
                       'with at least one look-up') % (3 if tier == 'quick' else 4, 3 if tier == 'quick' else 4, 3 if tier == 'quick' else 4),
                 bounds=dict(cases=len(cases)), samples=[cases[50], cases[-1]])
 
